@@ -3,6 +3,8 @@
 package extendeddaemonsetreplicaset
 
 import (
+	"k8s.io/apimachinery/pkg/util/intstr"
+
 	"context"
 	"strconv"
 	"time"
@@ -492,4 +494,59 @@ func ZZ_C11_ersReadFaults() {
 	nondet.Observe("deleted", deleted)
 	nondet.Reach("C11.ers-read.node-list-rejected", readFailed && err != nil)
 	nondet.Reach("C11.ers-read.fault-free-update", !readFailed && deleted == 1)
+}
+
+// ZZ_C11_rollbackHandOver: the failure-and-rollback scenario across the two controllers.  The canary
+// replica set foo-b is marked failed; the ExtendedDaemonSet reconcile that rolls back runs with every
+// write arbitrarily rejected / applied-with-answer-lost / fine; then the replica-set controller syncs
+// foo-b and foo-a (or not) — for it foo-b may already be "not the canary any more" — and failure-free
+// ExtendedDaemonSet reconciles follow (fresh instances).  Whatever happened in between, the end is
+// the rollback of the failure-free run: spec.template back to A, status.canary cleared, foo-a
+// active, and foo-b never promoted at any point.
+func ZZ_C11_rollbackHandOver() {
+	one := intstr.FromInt(1)
+	w, ds := zzNewWorld(2, &datadoghqv1alpha1.ExtendedDaemonSetSpecStrategyCanary{Replicas: &one, Duration: &metav1.Duration{Duration: nondet.Duration("canary.duration", time.Minute, time.Hour)}})
+	rsB := zzRS("foo-b", w.hashB)
+	rsB.Spec.Template = zzWorldTpl("B")
+	rsB.Annotations = map[string]string{datadoghqv1alpha1.MD5ExtendedDaemonSetAnnotationKey: w.hashB}
+	rsB.CreationTimestamp = metav1.NewTime(nondet.Base().Add(-10 * time.Minute))
+	rsB.Status.Status = "canary"
+	at := metav1.NewTime(nondet.Base().Add(-30 * time.Second))
+	rsB.Status.Conditions = append(rsB.Status.Conditions,
+		datadoghqv1alpha1.ExtendedDaemonSetReplicaSetCondition{Type: datadoghqv1alpha1.ConditionTypeCanary, Status: corev1.ConditionTrue, LastTransitionTime: at, LastUpdateTime: at},
+		datadoghqv1alpha1.ExtendedDaemonSetReplicaSetCondition{Type: datadoghqv1alpha1.ConditionTypeCanaryFailed, Status: corev1.ConditionTrue, LastTransitionTime: at, LastUpdateTime: at})
+	w.c.ERS = append(w.c.ERS, rsB)
+	ds.Status.Canary = &datadoghqv1alpha1.ExtendedDaemonSetStatusCanary{ReplicaSet: "foo-b", Nodes: []string{zzNodeName(0)}}
+	ds.Status.State = datadoghqv1alpha1.ExtendedDaemonSetStatusStateCanary
+	w.c.Pods[0] = zzPod("b-"+zzNodeName(0), zzNodeName(0), "foo-b", w.hashB, 0, corev1.PodRunning, true, nondet.Base().Add(-9*time.Minute))
+
+	edsReconcile := func() {
+		r, _ := edsctrl.NewReconciler(edsctrl.ReconcilerOptions{DefaultValidationMode: datadoghqv1alpha1.ExtendedDaemonSetSpecStrategyCanaryValidationModeAuto}, w.c, w.c.Scheme(), logr.Logger{}, &fakeapi.Recorder{})
+		_, _ = r.Reconcile(context.TODO(), reconcile.Request{NamespacedName: types.NamespacedName{Namespace: zzNS, Name: zzEDSName}})
+		nondet.Assert("C11.hand-over.failed-canary-never-promoted", w.c.EDS[0].Status.ActiveReplicaSet == "foo-a")
+	}
+	w.c.InjectFaults = true
+	w.c.FaultOnly = func(verb, kind, name, node string) bool { return kind == "ExtendedDaemonSet" }
+	edsReconcile()
+	w.c.InjectFaults = false
+	anyFault := false
+	for _, e := range w.c.Log {
+		if e.Failed {
+			anyFault = true
+		}
+	}
+	if nondet.Bool("replicaSetsSyncInBetween") {
+		for _, name := range []string{"foo-b", "foo-a"} {
+			_, _ = zzReconcile(zzReconciler(w.c, false), zzNS, name)
+		}
+		zzKubelet(w.c)
+	}
+	for i := 0; i < 3; i++ {
+		edsReconcile()
+	}
+	final := w.c.EDS[0]
+	nondet.Assert("C11.hand-over.rolled-back", final.Status.Canary == nil && final.Status.ActiveReplicaSet == "foo-a" &&
+		len(final.Spec.Template.Spec.Containers) == 1 && final.Spec.Template.Spec.Containers[0].Image == "agent:A")
+	nondet.Observe("state", string(final.Status.State))
+	nondet.Reach("C11.hand-over.fault-then-replicaset-sync", anyFault && final.Status.Canary == nil)
 }
